@@ -139,6 +139,18 @@ def campaign(ctx, cfg, layout, shard=0, nshards=1):
             if im.startswith('SOME') and im[5:] != s:
                 vf.violation(ctx, 'decapsulation of an unmodified encapsulation returned a secret different from the encapsulated one', {'config': cfg, 'enc_hex': e.hex(), 'usk_hex': u, 'impl': im, 'expected': s})
             auth[(ei, ui)] = im.startswith('SOME')
+    if not alt and shard == 0:
+        # an encapsulation FORGED from public data (neutral traps, chosen seed, hashes recomputed): consistent in every respect
+        # except the re-encryption check of the traps; no key may open it
+        p.stdin.write(f'FORGE {len(Enc(encs[0][0], PT, CT).c)}\n'); p.stdin.flush()
+        fr = p.stdout.readline().strip().split(' ')
+        if len(fr) == 3 and fr[1] != '-':
+            fb = bytes.fromhex(fr[1])
+            for ui, u in enumerate(usks):
+                im, rf = ask(fb, u); n += 1
+                if im.startswith('SOME') or im == 'PANIC':
+                    vf.violation(ctx, f'an encapsulation forged from public data only (neutral traps, hashes recomputed) was opened: {im[:40]}', {'config': cfg, 'mutation': 'forged from public data', 'original_enc_hex': encs[0][0].hex(), 'mutated_enc_hex': fr[1], 'usk_hex': u, 'impl': im})
+                    break
     parsed = [Enc(e, PT, CT) for e, _ in encs]
     for pe, (e, _) in zip(parsed, encs): assert pe.build() == e
     hist = {}; viol = []; muts = []
